@@ -39,7 +39,7 @@ func replayFile(path string) int {
 	switch r.Enumeration {
 	case "A":
 		var c *cfg
-		for _, x := range allCfgs(false) {
+		for _, x := range append(allCfgs(false), viaCfgs()...) {
 			if x.String() == r.Config {
 				x := x
 				c = &x
